@@ -39,6 +39,7 @@ class Check(BaseCheck):
     def translate(self):
         extract.gen_fem()
         extract.gen_misc()
+        extract.gen_solver_glue()
         astx.gen_eigs()
 
     def problems(self, seed, n):
@@ -138,6 +139,15 @@ class Check(BaseCheck):
         if kind == "tet":        # the tetra kernel has no absolute degeneracy threshold: the law holds for very small / large meshes too
             for s2 in (1e-6, 1e3):
                 variants.append(("scaling by %g" % s2, s2 * v, t, 1.0 / s2 ** 2))
+        # a much coarser length unit (float64 input): eigenvalues of order 1e-9 are still eigenvalues; judged relative to their own size
+        s3 = 3.0e4
+        try:
+            e3 = spec(s3 * v, t)
+        except Exception as e:  # noqa: BLE001
+            return core.Violation("invariance", "raised on scaling by %g: %s" % (s3, e), case)
+        pos = ev > 1e-6 * scale
+        if pos.any() and np.max(np.abs(e3[pos] * s3 ** 2 - ev[pos]) / ev[pos]) > 1e-3:
+            return core.Violation("invariance", "spectrum does not scale as 1/s^2 under scaling by %g: eigenvalues %s times s^2 vs %s" % (s3, e3[pos][:4], ev[pos][:4]), case)
         for name, vv, tt, fac in variants:
             try:
                 e2 = spec(vv, tt)
